@@ -43,3 +43,16 @@ func checkpointBlock(ch beacon.Chain, root common.Root, slot common.Slot) (commo
 		root = parent
 	}
 }
+
+// syncCommitteeForSlot selects the sync committee that signs messages of the given slot:
+// sync committee duties of a slot are verified in the block of the next slot,
+// so the last slot of a sync committee period already belongs to the next committee.
+// See compute_subnets_for_sync_committee and get_sync_subcommittee_pubkeys in the altair spec.
+func syncCommitteeForSlot(spec *common.Spec, epc *common.EpochsContext, slot common.Slot) *common.IndexedSyncCommittee {
+	period := spec.SlotToEpoch(slot) / spec.EPOCHS_PER_SYNC_COMMITTEE_PERIOD
+	nextSlotPeriod := spec.SlotToEpoch(slot+1) / spec.EPOCHS_PER_SYNC_COMMITTEE_PERIOD
+	if period == nextSlotPeriod {
+		return epc.CurrentSyncCommittee
+	}
+	return epc.NextSyncCommittee
+}
